@@ -94,6 +94,34 @@ def pm1_table_walk(rep, rid, mod):
     return rows
 
 
+def _same_field_reload(mod, fn, M, a, b):
+    """two loads of one struct field through the same base pointer, the first dominating the second, with nothing in between that
+    could change it: no call, and only stores to *other* fields of that same base"""
+    from ..mem import _between
+    from ..ir import field_of_gep
+    la, lb = fn.defn(a), fn.defn(b)
+    if la is None or lb is None or la.is_param or lb.is_param or la.op != "load" or lb.op != "load":
+        return False
+    ga, gb = fn.defn(M.strip(la.ops[0], ("bitcast",))), fn.defn(M.strip(lb.ops[0], ("bitcast",)))
+    if ga is None or gb is None or ga.is_param or gb.is_param or ga.op != "getelementptr" or gb.op != "getelementptr":
+        return False
+    if M.strip(ga.ops[0]) != M.strip(gb.ops[0]) or field_of_gep(mod, ga) is None or field_of_gep(mod, ga) != field_of_gep(mod, gb):
+        return False
+    if not fn.dominates(la.block.id, lb.block.id):
+        return False
+    for i in _between(fn, la, lb):
+        if i.op == "call" and not (i.callee or "").startswith("llvm.dbg"):
+            return False
+        if i.op == "store":
+            g = fn.defn(M.strip(i.ops[1], ("bitcast",)))
+            if g is None or g.is_param or g.op != "getelementptr" or M.strip(g.ops[0]) != M.strip(ga.ops[0]):
+                return False
+            fo = field_of_gep(mod, g)
+            if fo is None or fo == field_of_gep(mod, ga):
+                return False
+    return True
+
+
 def run(tier, seed):
     rep = Report("C09", tier, "other",
                  "Abstract interpretation (intervals with sign-split memory invariants, pointer regions with sub-object bounds, "
@@ -207,8 +235,36 @@ def run(tier, seed):
         bw = collections.Counter()
         for st in stores_to_field(plain, "BitStreamReader", "bits"):
             bw[st.fn.cname] += 1
-        rep.check(rid, set(bw) <= {"bit_stream_reader_init", "peek_bits", "read_bits"} and len(bw) == 3, "writers of BitStreamReader.bits", "bit_stream_reader.c", "%s" % dict(bw),
+        rep.check(rid, {"bit_stream_reader_init", "peek_bits", "read_bits"} <= set(bw), "writers of BitStreamReader.bits include init / peek_bits / read_bits", "bit_stream_reader.c", "%s" % dict(bw),
                   function="BitStreamReader.bits", obj="writers")
+        # any further store keeps 0 <= bits <= 32 only if it is a constant in range or takes away a constant number of bits that a
+        # dominating fact shows to be there (`if (bits != 0) --bits`)
+        for st in stores_to_field(plain, "BitStreamReader", "bits"):
+            if st.fn.cname in ("bit_stream_reader_init", "peek_bits", "read_bits"):
+                continue
+            f_ = st.fn
+            Mx = Matcher(f_)
+            Fx = ctx.facts(f_)
+            okb, why = False, None
+            if is_const(st.ops[0]) and const_val(st.ops[0]) is not None and 0 <= const_val(st.ops[0]) <= 32:
+                okb, why = True, "constant %d" % const_val(st.ops[0])
+            else:
+                old = ("load", ("field", "BitStreamReader", "bits", ANY))
+                e = Mx.match(("bin", "sub", ("bind", "o", old), ("bind", "k", ("const",))), st.ops[0], {}) or Mx.match(("bin", "add", ("bind", "o", old), ("bind", "k", ("const",))), st.ops[0], {})
+                if e is not None and is_const(e["k"]):
+                    k = const_val(e["k"])
+                    dd = f_.defn(Mx.strip(st.ops[0]))
+                    if dd is not None and dd.op == "add":
+                        k = -k if k < 0 else ((1 << 32) - k if k >= (1 << 31) else -1)
+                    if 1 <= k <= 32:
+                        for fc in Fx.at_inst(st):
+                            if fc[0] == "in" or not is_const(fc[2]) or Mx.match(old, fc[1], {}) is None or \
+                                    not (Mx.equiv(Mx.strip(fc[1]), Mx.strip(e["o"])) or _same_field_reload(plain, f_, Mx, Mx.strip(fc[1]), Mx.strip(e["o"]))):
+                                continue
+                            c = const_val(fc[2])
+                            if (fc[0] == "ne" and c == 0 and k == 1) or (fc[0] == "ugt" and c >= k - 1) or (fc[0] == "uge" and c >= k):
+                                okb, why = True, "bits -= %d under a fact that at least %d bit(s) are buffered" % (k, k)
+            rep.check(rid, okb, "%s: store to BitStreamReader.bits keeps 0 <= bits <= 32" % f_.cname, st.where(), why or "neither a constant in range nor a guarded decrement", function=f_.cname, obj="bits-store")
         for f in plain.fns("peek_bits")[:1]:
             M = Matcher(f)
             for st in stores_to_field(plain, "BitStreamReader", "bits", [f]):
